@@ -32,10 +32,14 @@ def histories(tier, rng):
                  pub("P1", "e1"), pub("P2", "e2"), pub("P1", "e1"), unr("P2", "e1"), unr("P1", "e1"), pub("P2", "e2"), uns("C1", "e1", "link"), uns("C1", "e2", "monitor"), uns("C1", "e2", "monitor")])
     for _ in range(400 if tier == "quick" else 4000):
         ops = []
-        subs = set()
+        subs = set(); owner = {}; alive = set(P)
         for _ in range(rng.randint(5, 30)):
             c = rng.random(); e = rng.choice(E)
-            if c < 0.12: ops.append(reg(rng.choice(P), e, rng.choice([0, 0, 1, 2, 3]), rng.random() < 0.5))
+            if c < 0.12:
+                p_ = rng.choice(P)
+                ops.append(reg(p_, e, rng.choice([0, 0, 1, 2, 3]), rng.random() < 0.5))
+                if p_ in alive and e not in owner:
+                    owner[e] = p_
             elif c < 0.45: ops.append(pub(rng.choice(P), e))
             elif c < 0.50: ops.append(bad(rng.choice(P), e))
             elif c < 0.72:
@@ -43,14 +47,22 @@ def histories(tier, rng):
                 other = "monitor" if k == "link" else "link"
                 if (cc, e, other) in subs:
                     k = other          # never both kinds on one event for one consumer (double delivery is not specified)
-                ops.append(sub(cc, e, k)); subs.add((cc, e, k))
+                ops.append(sub(cc, e, k))
+                if e in owner:
+                    subs.add((cc, e, k))
             elif c < 0.86:
                 cc = rng.choice(C); k = rng.choice(["link", "monitor"])
                 ops.append(uns(cc, e, k)); subs.discard((cc, e, k))
             elif c < 0.95:
-                ops.append(unr(rng.choice(P), e)); subs = {x for x in subs if x[1] != e}
+                p_ = rng.choice(P)
+                ops.append(unr(p_, e))
+                if owner.get(e) == p_ and p_ in alive:
+                    del owner[e]; subs = {x for x in subs if x[1] != e}
             else:
-                ops.append(kill(rng.choice(P))); subs = set()   # conservative: relations on the killed producer's events are gone
+                p_ = rng.choice(P)
+                ops.append(kill(p_)); alive.discard(p_)
+                for e2 in [x for x in owner if owner[x] == p_]:
+                    del owner[e2]; subs = {x for x in subs if x[1] != e2}
         add(ops)
     return out
 
